@@ -124,8 +124,11 @@ def signalled_manager(acc, rng):
     sock.bind(("127.0.0.1", 0))
     port = sock.getsockname()[1]
     sock.close()
+    import tempfile
+    import shutil
+    mgr_tmp = tempfile.mkdtemp(prefix="pv-c03-mgr-")
     envv = dict(os.environ, PYTHONHASHSEED="0", PYTHONDONTWRITEBYTECODE="1",
-                PV_SLOW_EXCHANGES="0.15")
+                PV_SLOW_EXCHANGES="0.15", PV_MGR_TMP=mgr_tmp)
     child = subprocess.Popen([sys.executable, "-m", "pv.props.c03", "--manager-child",
                               str(port), "0"], cwd=env.VERIF, env=envv,
                              stdout=subprocess.DEVNULL, stderr=subprocess.DEVNULL)
@@ -178,6 +181,7 @@ def signalled_manager(acc, rng):
         if child.poll() is None:
             child.kill()
         child.wait(10)
+        shutil.rmtree(mgr_tmp, ignore_errors=True)
 
 
 def run_shard(spec, acc):
